@@ -56,6 +56,27 @@ def classify(problems, feats, nroots):
     return None
 
 
+def after_toobig(R):
+    """The path after failures: for five polling cycles the device refuses every GETBULK as
+    tooBig (the caller handles the error each time); afterwards the device is its ordinary
+    self again and a bulk walk on the SAME client is as exact as ever."""
+    from .. import ber as _ber
+
+    rng = R.rng("after-toobig")
+    for j in range(4):
+        roots, db = wc.gen_case(rng)
+        for level in ("v2c", "v3-md5"):
+            w = rig.World(level, db)
+            for bulk in (10, 1, 2, None):
+                w.agent.pdu_hook = lambda req, resp: dict(resp, error_status=1, error_index=0, varbinds=[]) if req["type"] == _ber.PDU_GETBULK else resp
+                for _cycle in range(5):
+                    wc.run_walk(level, db, roots, "bulkwalk", bulk=bulk, w=w)  # fails; its outcome is C08's matter
+                w.agent.pdu_hook = None
+                run_one(R, level, roots, db, "bulkwalk", bulk, "full", 0, "after-toobig", w=w)
+                run_one(R, level, roots, db, "pybulkwalk", bulk, "full", 0, "after-toobig", w=w)
+                R.mon["bulkwalks_after_refused_ones"] += 2
+
+
 def run_one(R, level, roots, db, api, bulk, policy, pseed, label, w=None):
     outcome, ys, w = wc.run_walk(level, db, roots, api, bulk=bulk, policy=policy, policy_seed=pseed, w=w)
     if label == "reuse":
@@ -71,6 +92,8 @@ def run_one(R, level, roots, db, api, bulk, policy, pseed, label, w=None):
         "roots": [list(r) for r in roots],
         "db": wc.enc_db(db),
     }
+    if label == "after-toobig":
+        case["label"] = label
     sizes = tuple(sum(1 for k in db if gen.strictly_below(k, r)) for r in roots)
     fp = ("c02", sizes, tuple(roots), level, api, bulk, policy)
     nontrivial = bool(truth) and feats.get("getbulk", 0) >= 1
@@ -198,6 +221,8 @@ def run(R):
             for api, policy in (("bulkwalk", "full"), ("pybulkwalk", "full"), ("bulkwalk", "fewer")):
                 run_one(R, "v2c", roots, db, api, None, policy, 7, "default-bulk-size")
                 R.mon["bulkwalks_with_the_default_bulk_size"] += 1
+    if R.shard == 0:
+        after_toobig(R)
     if R.shard == 3 % R.nshards:
         # responses cut below one row only ONCE (later ones complete), a buffer that holds
         # one binding per response, and a device that reboots in the middle of the walk
@@ -255,6 +280,9 @@ def run(R):
 
 def replay(R, v):
     c = v["case"]
+    if c.get("label") == "after-toobig":
+        after_toobig(R)
+        return
     if c.get("reboot_at"):
         outcome, ys, w = wc.run_walk(c["level"], wc.dec_db(c["db"]), [tuple(r) for r in c["roots"]], "bulkwalk", bulk=c["bulk"], policy="full", reboot_at=c["reboot_at"])
         if outcome != "ok" or wc.judge(ys, wc.dec_db(c["db"]), [tuple(r) for r in c["roots"]]):
